@@ -36,6 +36,10 @@ def _applicable(action, tmpl):
         return bool(t.get("tags"))
     if action in ("att_edit_1", "md_edit_2024", "md_edit_note"):
         return bool(t.get("intkeys"))
+    if action == "unstale_edit":
+        return bool(t.get("stale")) or t.get("att") == "stale"
+    if action in ("nums_add", "nums_append", "nums_replace"):
+        return bool(t.get("nums"))
     if action == "md_src":
         return bool(t.get("md")) or bool(t.get("collapsed"))
     if action == "collapsed_src":
